@@ -193,9 +193,13 @@ def rule_decoder_agreement(ctx, rep, rid: str) -> None:
     for s in comp.node.body:
         if isinstance(s, ast.Assign) and norm(s.targets[0]) == "_JUMP_OPCODES":
             enc16 = {opcode_member(e) for e in ast.walk(s.value) if opcode_member(e)}
-    if not enc16:
-        raise AnalysisError("Compiler._JUMP_OPCODES not found")
     with_arg, without, jumps = emitted_operands(ctx)
+    # opcodes that go through a helper which writes two operand bytes (low, high) are 16-bit as well
+    two_byte_helpers = {m.name for m in comp.methods.values() if any(isinstance(n, ast.BinOp) and isinstance(n.op, ast.RShift) and isinstance(n.right, ast.Constant) and n.right.value == 8 for n in m.own_nodes()) or sum(1 for n in m.own_nodes() if isinstance(n, ast.Call) and norm(n.func) == "self.bytecode.append") >= 3}
+    if "_emit_jump" in two_byte_helpers:
+        enc16 = enc16 | jumps
+    if not enc16:
+        raise AnalysisError("the compiler's 16-bit operand set was not found (neither a table consulted by _emit nor a two-byte emit helper)")
     enc8 = with_arg - enc16
     decs = decoders(ctx)
     if len(decs) < 2:
@@ -223,7 +227,7 @@ def rule_decoder_agreement(ctx, rep, rid: str) -> None:
     # jump opcodes emitted through _emit_jump must be in the 16-bit set
     for op in sorted(jumps | (with_arg & enc16)):
         if op not in enc16:
-            rep.bad(rid, f"compiler:jump:{op}", f"{op} is emitted as a jump but is not in _JUMP_OPCODES", f"{comp.module.rel}:{comp.node.lineno}")
+            rep.bad(rid, f"compiler:jump:{op}", f"{op} is emitted as a jump but is not in the compiler's 16-bit operand set", f"{comp.module.rel}:{comp.node.lineno}")
     # every emitted opcode has a handler
     for op in sorted((with_arg | without | jumps) - set(handled)):
         rep.bad(rid, f"compiler:unhandled:{op}", f"the compiler emits {op} but the dispatcher has no branch for it (host NotImplementedError at run time)", f"{comp.module.rel}:{comp.node.lineno}")
